@@ -41,6 +41,9 @@ import (
 //   anchor one seconds-scale history through the production path (module
 //          Init, product rule file, checkPeriod 1 s / stayPeriod 1 s, handler
 //          chain HandleFoundProduct).
+//   space  (c53space.go) timing-free key-space cases: many distinct but similar
+//          keys of one ingredient on one rule with 1 h periods; request n of a
+//          key is admitted iff n <= T, whatever the other keys do.
 
 const (
 	c53EpsNs   = 500_000 // widening of every call interval (wall vs monotonic slew, see Assume)
@@ -814,7 +817,7 @@ func c53AnchorInit(r *vkit.Run, c *c53Case) (c53Target, bool) {
 // ---- driver -----------------------------------------------------------------------------
 
 func c53(r *vkit.Run) {
-	r.SetRule("history = one key's deterministic script of target offsets (us) against one real prisonRule (threshold 0-8, checkPeriod 40-200 ms, stayPeriod 40-400 ms via the verif hook; 12 accessSignConf modes: header, cookie, query, clientip, host, path, url, urlregexp and combinations, keys of a rule differing in exactly one participating component, a per-request noise header/query that must not matter). Scripts come from a generator that follows the nominal automaton to exceed periods, probe jails (half of the probes in the last 15 ms before release), serve them, let periods run out, and place 1/10 of the steps +-2 ms around edges; otherwise >= 10 ms from edges; at run time the rest of a key's script is slid by the lateness of each request that nominally opens a period (script unchanged). 'keys' cases run 3-6 keys of one rule in parallel goroutines (each key sequential); 'storm' cases (plus 6000/120000 probe-less micro-bursts with 10 s periods) fire 2-4 goroutines on ONE key and are judged by counts (exactly min(N,T) admitted when the burst certainly lies within one period; nothing admitted after a denial returned) followed by sequential probes; one 'anchor' case runs checkPeriod=stayPeriod=1 s through module Init + the HandleFoundProduct handler chain. Oracle: state-set interval reference (c53ref.go): period opened by the first counted request, request T+1 of a period and everything before start+checkPeriod+stayPeriod denied, then admitted again; verdicts judged only if all admissible timings agree (call stamps widened by 0.5 ms), else ambiguous. Excluded: allow-obligations where a sliding-period reading would deny (doc silent on fixed vs sliding); LRU eviction (dict sizes 1000 >> keys); UseSocketIP/UseConnectID (documented, not part of this property). Non-trivial = history with >= 1 checked deny and >= 1 checked admit that only a served jail explains; distinct = (kind, T, periods, sign mode, key, offsets)")
+	r.SetRule("history = one key's deterministic script of target offsets (us) against one real prisonRule (threshold 0-8, checkPeriod 40-200 ms, stayPeriod 40-400 ms via the verif hook; 12 accessSignConf modes: header, cookie, query, clientip, host, path, url, urlregexp and combinations, keys of a rule differing in exactly one participating component, a per-request noise header/query that must not matter). Scripts come from a generator that follows the nominal automaton to exceed periods, probe jails (half of the probes in the last 15 ms before release), serve them, let periods run out, and place 1/10 of the steps +-2 ms around edges; otherwise >= 10 ms from edges; at run time the rest of a key's script is slid by the lateness of each request that nominally opens a period (script unchanged). 'keys' cases run 3-6 keys of one rule in parallel goroutines (each key sequential); 'storm' cases (plus 6000/120000 probe-less micro-bursts with 10 s periods) fire 2-4 goroutines on ONE key and are judged by counts (exactly min(N,T) admitted when the burst certainly lies within one period; nothing admitted after a denial returned) followed by sequential probes; one 'anchor' case runs checkPeriod=stayPeriod=1 s through module Init + the HandleFoundProduct handler chain. Oracle: state-set interval reference (c53ref.go): period opened by the first counted request, request T+1 of a period and everything before start+checkPeriod+stayPeriod denied, then admitted again; verdicts judged only if all admissible timings agree (call stamps widened by 0.5 ms), else ambiguous. Excluded: allow-obligations where a sliding-period reading would deny (doc silent on fixed vs sliding); LRU eviction (dict sizes 1000 >> keys); UseSocketIP/UseConnectID (documented, not part of this property). Non-trivial = history with >= 1 checked deny and >= 1 checked admit that only a served jail explains; distinct = (kind, T, periods, sign mode, key, offsets). KEY-SPACE cases (c53space.go, 'space'): one real rule with checkPeriod = stayPeriod = 1 h, threshold 1-3, and 2-280 pairwise distinct keys of one family = (sign mode of 13: clientip, clientip+header, header, cookie, query, host, path, url, urlregexp with 1 and 2 groups, UseHeaders, url+host, and one rule signing client ip + host + path + 2 headers + 2 cookies + 2 query keys) x (signed field) x (class); requests fired sequentially in a seeded order (2/3 of the cases: one key over the threshold first, then every other key once, then the rest shuffled), each key T+1..T+2 requests; timing-free oracle: request n of a key is admitted iff n <= T; a denial with n <= T is attributed by re-running on fresh rules (the key alone; A x T then B; A x (T+1) then B) and reported as other-key-affected:<ingredient>:<class> with the two-key witness (client ip: class = address kinds, e.g. ipv6-vs-ipv6). Classes: client ip = ipv6-last-group, ipv6-first-group, ipv6-zero-runs, ipv6-link-local, ipv6-one-bit (32 of the 128 single-bit neighbours of a seeded address; thorough all), ipv4-one-bit (all 32), mixed-forms (plain IPv4 as 4- and 16-byte net.IP, IPv4-mapped, IPv6 with the same low 32 bits, ::, ::1, 0.0.0.0, all-ones); strings = case, space (inner/leading/trailing blanks and tabs where HTTP keeps them), one-byte (one byte / one bit / one byte longer or shorter / doubled), empty-absent, long (256, 4096 and, for rules signing one field, 66000 bytes: equal but for the last, first, middle, 255th/256th, 65535th/65536th byte or by length), separator-bytes (26 separator strings inside, in front of and behind the value), non-ascii, numeric-format; tuples = field-boundary: for every ordered pair of signed string fields (f1,f2) the tuples (x+s+y, z) and (x, y+s+z) for every join string s = separator x {none, name of f2, ingredient word} x {none, '=', ':'} that both fields may carry, plus swapped values. Distinctness is defined from HTTP and the doc, not from the signer: header values without outer whitespace, RFC 6265 cookie octets, lower-case reg-name hosts without port, query/path values under ONE injective percent-encoding style per case (distinct raw and decoded); the plain and the IPv4-mapped form of ONE address never meet in a case (doc silent on their equality); absent/empty header, cookie, query values are only sent below the threshold (doc silent on whether they form a key); every key is vetted (bfe's HTTP reader must deliver exactly the named values, else the key is counted and left out). Tuple cases parse each key's request once and reuse the object; all other cases build every request anew with a per-request noise header/query/port. Required shapes (else inconclusive): every class, every ingredient, all six address-kind pairs, an admitted request of a below-threshold key while another key of the rule is jailed")
 	r.Assume("the wall clock (read by mod_prison via time.Now().UnixNano()) advances with the monotonic clock within 0.25 ms over one case; cases where the harness measures a larger deviation are discarded and counted")
 	r.Assume("hook VerifNewPrisonRule builds the rule with the real PrisonRuleCheck/newPrisonRule/initDict and only overwrites checkPeriodNs/stayPeriodNs; requests enter through the real recordAndCheck")
 
@@ -827,6 +830,10 @@ func c53(r *vkit.Run) {
 			return
 		}
 		c := &w.Case
+		if c.Kind == "space" {
+			c53SpaceReplay(r)
+			return
+		}
 		r.SetMinDistinct(0)
 		var tgt c53Target
 		if c.Kind == "anchor" {
@@ -861,6 +868,8 @@ func c53(r *vkit.Run) {
 	// package variable openDebug that recordAndCheck reads.
 	anchor := c53GenAnchor(r)
 	atgt, aok := c53AnchorInit(r, anchor)
+	// key-space cases (c53space.go): sequential, timing-free, before the timed workload
+	c53Space(r)
 	var awg sync.WaitGroup
 	if aok {
 		awg.Add(1)
